@@ -62,7 +62,7 @@ def build_harness(race=False):
 
 ENGINE_EVENTS = ("scen.begin,run.begin,run.end,scen.end,inv.begin,inv.end,draw,call,ctx,cinv.begin,cinv.end,"
                  "tb.logf,tb.errorf,tb.failnow,tb.fail,h.phase,h.once.begin,h.once.end,h.docheck.ret,h.save,fs,"
-                 "h.failfiles,h.ff.load,h.shrink.begin,h.shrink.end,h.accept,recovered,timing,h.action.none,harness.done")
+                 "h.failfiles,h.ff.load,h.shrink.begin,h.shrink.end,h.accept,recovered,timing,h.action.none,sm.inv.begin,sm.inv.end,harness.done")
 
 
 def run_harness(binary, scenarios, out_path, events, mode="scenarios", timeout=600, extra=(), env=None, cwd=None):
